@@ -127,6 +127,27 @@ pub trait Engine: Sync + Send {
     fn gen_tag(&self) -> Option<String> {
         None
     }
+    /// targeted search (hill climbing on `Eval::score`): (generated samples per worker from which the starting points
+    /// are chosen, climbs per worker); (0, 0) = the property has no score
+    fn climb_budget(&self, _prop: &str, _tier: Tier) -> (u64, usize) {
+        (0, 0)
+    }
+    /// number of operand coordinates a climb may move for this case
+    fn climb_coords(&self, _prop: &str, _c: &Case) -> usize {
+        0
+    }
+    /// the case with coordinate `coord` moved by `step` units in direction `up`; None when that leaves the domain
+    fn climb_move(&self, _prop: &str, _c: &Case, _coord: usize, _up: bool, _step: u128) -> Option<Case> {
+        None
+    }
+    /// the pattern search tries steps of 2^k units for every `climb_stride`-th k (1 = every power of two)
+    fn climb_stride(&self, _prop: &str) -> u32 {
+        1
+    }
+    /// bucket of a case for the choice of starting points (the best few of every bucket are climbed from)
+    fn climb_bucket(&self, _prop: &str, c: &Case) -> u64 {
+        (c.op as u64) << 16 | c.lay2 as u64
+    }
 }
 
 pub fn default_case_json<E: Engine + ?Sized>(e: &E, prop: &str, c: &Case) -> Value {
@@ -199,6 +220,11 @@ pub struct Acc {
     pub class_sampled: BTreeMap<&'static str, u32>,
     pub layouts: BTreeSet<u16>,
     pub known: BTreeMap<&'static str, u64>,
+    /// targeted search: climbs run, evaluations spent in them, best score seen, and the case it was seen at
+    pub climbs: u64,
+    pub climb_evals: u64,
+    pub best_score: f64,
+    pub best_case: Option<Value>,
 }
 
 fn case_hash(c: &Case) -> u64 {
@@ -252,6 +278,12 @@ impl Acc {
     }
     fn merge(&mut self, o: Acc) {
         self.evaluations += o.evaluations;
+        self.climbs += o.climbs;
+        self.climb_evals += o.climb_evals;
+        if o.best_score > self.best_score {
+            self.best_score = o.best_score;
+            self.best_case = o.best_case.clone();
+        }
         self.skipped += o.skipped;
         self.nontrivial_evals += o.nontrivial_evals;
         for h in o.distinct {
@@ -347,7 +379,11 @@ fn proptest_pass<E: Engine + ?Sized>(
             if stop.load(Ordering::Relaxed) && !failed.get() {
                 return Ok(());
             }
+            let t_eval = Instant::now();
             let ev = e.eval(&cfg.prop, &case, cfg.chk, kf);
+            if t_eval.elapsed().as_millis() > 1500 && std::env::var_os("VERIF_SLOW").is_some() {
+                eprintln!("slow case ({} ms): {}", t_eval.elapsed().as_millis(), e.case_json(&cfg.prop, &case));
+            }
             if !failed.get() {
                 acc_cell.borrow_mut().record(e, &cfg.prop, &case, &ev);
             }
@@ -374,6 +410,109 @@ fn proptest_pass<E: Engine + ?Sized>(
         }
     }
     None
+}
+
+/// Targeted search. `samples` cases are drawn from the property's strategy (proptest, seeded); the best-scoring few of
+/// every bucket become starting points; from each, every operand coordinate is moved by a pattern search (steps of 2^k units, k descending
+/// from the top of the operand to one unit, both directions) until no move improves the score. Every evaluation goes
+/// through the ordinary oracle, so a case that violates the property anywhere along a climb is reported as such.
+#[allow(clippy::too_many_arguments)]
+fn climb_pass<E: Engine + ?Sized>(e: &E, cfg: &RunCfg, kf: &Kf, samples: u64, climbs: usize, seed: u64, acc: &mut Acc, stop: &AtomicBool) -> Option<Violation> {
+    use proptest::strategy::ValueTree;
+    let prop = cfg.prop.as_str();
+    let strat = e.strategy(prop, None);
+    let mut runner = TestRunner::new(proptest_config(1, seed));
+    let mut buckets: std::collections::BTreeMap<u64, Vec<(f64, Case)>> = std::collections::BTreeMap::new();
+    let mut violation: Option<Violation> = None;
+    let mut eval = |c: &Case, acc: &mut Acc, climbing: bool| -> f64 {
+        let ev = e.eval(prop, c, cfg.chk, kf);
+        acc.record(e, prop, c, &ev);
+        if climbing {
+            acc.climb_evals += 1;
+        }
+        if ev.score.is_finite() && ev.score > acc.best_score && !ev.skipped && ev.known.is_empty() {
+            acc.best_score = ev.score;
+            acc.best_case = Some(e.case_json(prop, c));
+        }
+        if !ev.fails.is_empty() && violation.is_none() {
+            violation = Some(Violation { case: c.clone(), fails: ev.fails.clone(), origin: if climbing { "targeted search (climbed)".into() } else { "generated".into() } });
+        }
+        // a case excused by a known finding is no starting point and no summit
+        if ev.skipped || !ev.known.is_empty() { -1.0 } else if ev.score.is_finite() { ev.score } else { 0.0 }
+    };
+    for _ in 0..samples {
+        if stop.load(Ordering::Relaxed) {
+            return None;
+        }
+        let c = match strat.new_tree(&mut runner) {
+            Ok(t) => t.current(),
+            Err(_) => continue,
+        };
+        if e.climb_coords(prop, &c) == 0 {
+            continue;
+        }
+        let s = eval(&c, acc, false);
+        if s <= 0.0 {
+            continue;
+        }
+        let b = buckets.entry(e.climb_bucket(prop, &c)).or_default();
+        b.push((s, c));
+        if b.len() > 8 {
+            b.sort_by(|x, y| y.0.total_cmp(&x.0));
+            b.truncate(2);
+        }
+    }
+    // starting points: best two of every bucket, best first, at most `climbs`
+    let mut starts: Vec<(f64, Case)> = Vec::new();
+    for (_, mut b) in buckets {
+        b.sort_by(|x, y| y.0.total_cmp(&x.0));
+        b.truncate(2);
+        starts.extend(b);
+    }
+    starts.sort_by(|x, y| y.0.total_cmp(&x.0));
+    starts.truncate(climbs);
+    for (s0, c0) in starts {
+        if stop.load(Ordering::Relaxed) {
+            break;
+        }
+        acc.climbs += 1;
+        let (mut cur, mut best) = (c0, s0);
+        for _round in 0..3 {
+            let mut improved = false;
+            for coord in 0..e.climb_coords(prop, &cur) {
+                // pattern search with descending step: 2^k units for k from the top of the operand down to one unit,
+                // each tried in both directions (and again while it keeps improving)
+                let stride = e.climb_stride(prop).max(1);
+                for k in (0..127u32).rev().filter(|k| k % stride == 0) {
+                    let step = 1u128 << k;
+                    for up in [true, false] {
+                        for _ in 0..6 {
+                            match e.climb_move(prop, &cur, coord, up, step) {
+                                Some(n) => {
+                                    let s = eval(&n, acc, true);
+                                    if s > best {
+                                        best = s;
+                                        cur = n;
+                                        improved = true;
+                                    } else {
+                                        break;
+                                    }
+                                }
+                                None => break,
+                            }
+                        }
+                    }
+                }
+            }
+            if !improved {
+                break;
+            }
+        }
+    }
+    if violation.is_some() {
+        stop.store(true, Ordering::Relaxed);
+    }
+    violation
 }
 
 pub struct RunResult {
@@ -541,6 +680,14 @@ pub fn run<E: Engine + ?Sized>(e: &E, cfg: &RunCfg) -> RunResult {
                         viols.push(v);
                     }
                 }
+                // 5. targeted search on the engine's score
+                let (cs, cn) = e.climb_budget(prop, cfg.tier);
+                if cn > 0 && !stop.load(Ordering::Relaxed) && std::env::var_os("VERIF_NO_CLIMB").is_none() {
+                    let seed = splitmix(base_seed ^ (0xC11B_0000 + wi as u64).wrapping_mul(0xA24B_AED4_963E_E407));
+                    if let Some(v) = climb_pass(e, cfg, kf, scale(cs), cn, seed, &mut acc, stop) {
+                        viols.push(v);
+                    }
+                }
                 results.lock().unwrap().push((acc, viols));
             });
         }
@@ -603,6 +750,7 @@ pub fn partial_json<E: Engine + ?Sized>(e: &E, cfg: &RunCfg, r: &RunResult, repl
         "violations": r.violations.len(),
         "violation_replays": replay_paths,
         "missing_required_classes": missing,
+        "targeted_search": json!({"climbs": r.acc.climbs, "evaluations_in_climbs": r.acc.climb_evals, "best_score_seen": r.acc.best_score, "best_score_case": r.acc.best_case, "score": "observed error divided by the stated bound (1.0 = at the bound); 0 when the property has no score"}),
         "wall_s": r.wall_s,
     })
 }
